@@ -100,6 +100,7 @@ type HookSpec struct {
 //	update  l.UpdateContext(Ops)  (only directly after a with step)
 type Step struct {
 	Kind    string     `json:"kind"`
+	From    *int       `json:"from,omitempty"` // parent node: nil = the previous node (chain); -1 = root; i = result of Steps[i]
 	Ops     []Op       `json:"ops,omitempty"`
 	Hooks   []HookSpec `json:"hooks,omitempty"`
 	Level   int        `json:"level,omitempty"`
@@ -111,6 +112,7 @@ type Step struct {
 // Method: trace debug info warn error log err(Val in ErrV) withlevel(Level)
 // Fin: msg msgf msgfunc send
 type EventSpec struct {
+	Node   *int   `json:"node,omitempty"` // logger node: nil = last node; -1 = root; i = result of Steps[i]
 	Method string `json:"method"`
 	Level  int    `json:"level,omitempty"`
 	ErrV   *Val   `json:"errv,omitempty"`
@@ -119,8 +121,48 @@ type EventSpec struct {
 	Msg    []byte `json:"msg,omitempty"`
 }
 
+// Act orders execution: K = step | event | open | fin ; I = index into Steps / Events.
+// "open" starts an event and applies its field ops, "fin" finalises it later (several
+// events may be open at once); "event" does both.
+type Act struct {
+	K string `json:"k"`
+	I int    `json:"i"`
+}
+
 type Program struct {
 	Set    Settings    `json:"settings"`
 	Steps  []Step      `json:"steps,omitempty"`
 	Events []EventSpec `json:"events"`
+	Order  []Act       `json:"order,omitempty"` // nil = all steps, then all events
+}
+
+// Acts returns the execution order (explicit or default).
+func (p *Program) Acts() []Act {
+	if p.Order != nil {
+		return p.Order
+	}
+	var a []Act
+	for i := range p.Steps {
+		a = append(a, Act{"step", i})
+	}
+	for i := range p.Events {
+		a = append(a, Act{"event", i})
+	}
+	return a
+}
+
+// ParentOf resolves the parent node of step i (-1 = root).
+func (p *Program) ParentOf(i int) int {
+	if p.Steps[i].From != nil {
+		return *p.Steps[i].From
+	}
+	return i - 1
+}
+
+// NodeOf resolves the node an event logs through.
+func (p *Program) NodeOf(j int) int {
+	if p.Events[j].Node != nil {
+		return *p.Events[j].Node
+	}
+	return len(p.Steps) - 1
 }
